@@ -108,6 +108,33 @@ CHECKS = {
         "trusted_base": ["Model/Hands.v hand written; Spec/SpecCombs.v written from the property text"],
         "assumptions": ["blocking masks are hands of the configured deck"],
     },
+
+    "C17": {
+        "harness": ["c17"], "level": "proof",
+        "rule": "pg kind rows: tables (empty, one row, a few, tens, hundreds; thousands in thorough) of the blueprint profile, metric, lookup and transitions with extreme / negative / NaN-payload / infinite floats, all edge kinds and streets: save() bytes, load() of the complete file, and load() of every strict prefix (every byte for <= 50 rows, the first and last 40 bytes plus every 13th byte beyond)",
+        "exhaustive": {"quick": False, "thorough": False},
+        "trusted_base": ["Model/Pgcopy.v hand written (validated byte for byte per run); Spec/SpecPgcopy.v written from the PostgreSQL COPY BINARY documentation; the naming table writer-expression -> column name in translator/rs2v_tables.py; hooks Profile::verif_rows/verif_from_rows, Metric::verif_entries/verif_from_entries, Decomp::verif_entries"],
+
+        "spec_prefix": ["c17_"],
+        "technique": "Coq theorems (load o save = id on sorted tables; output parses under the COPY grammar with the declared types; writer field order = COPY column list) over a byte-level model with REGENERATED layouts + per-run byte-for-byte comparison",
+        "level_text": "Theorems over the byte-level model of save()/load() whose layouts (field count, order and width of write_* calls, read_* calls, COPY column list, declared types) are regenerated from the Rust source on every run: load(save(t)) = t bit-identically for all sorted tables, the bytes are a well-formed binary COPY stream with the declared field widths, and the fields are written in the order of the COPY column list. Per run: saved bytes compared byte for byte with the model, loaded tables compared, the bytes parsed by the extracted COPY grammar.",
+        "level_note": "Trusted: Coq kernel, model (validated per run), translator incl. its expression-to-column naming table, extraction + glue, harness + hooks. The file system is a byte list.",
+        "explanation": "save/load vs extracted model; extracted COPY grammar and column checks on the implementation's bytes",
+        "assumptions": ["tables are in BTreeMap order (checked against the model's key order per run)"],
+    },
+    "C18": {
+        "harness": ["c17"], "level": "proof",
+        "rule": "pg kind rows: tables (empty, one row, a few, tens, hundreds; thousands in thorough) of the blueprint profile, metric, lookup and transitions with extreme / negative / NaN-payload / infinite floats, all edge kinds and streets: save() bytes, load() of the complete file, and load() of every strict prefix (every byte for <= 50 rows, the first and last 40 bytes plus every 13th byte beyond)",
+        "exhaustive": {"quick": False, "thorough": False},
+        "trusted_base": ["Model/Pgcopy.v hand written (validated byte for byte per run); Spec/SpecPgcopy.v written from the PostgreSQL COPY BINARY documentation; the naming table writer-expression -> column name in translator/rs2v_tables.py; hooks Profile::verif_rows/verif_from_rows, Metric::verif_entries/verif_from_entries, Decomp::verif_entries"],
+
+        "spec_prefix": ["c18_"],
+        "technique": "Coq theorem: every strict prefix of a saved file is rejected by the loader (induction on rows, depends on the regenerated EOF rule) + per-run loading of every prefix of real files",
+        "level_text": "Theorem: for every table and every n < length, loading the first n bytes fails, for all four table kinds - it depends on the loader's EOF rule, which is regenerated from the source (a loader that stops quietly at a short read refutes it, witness in Coq). Per run every strict prefix of saved files is loaded through the real loaders under catch_unwind and the outcome (failed / equal to the original / silently different) compared with the model; 'silently different' is the violation.",
+        "level_note": "Trusted: as C17. A crash is modelled as a prefix of the file (torn or reordered sectors are outside the model).",
+        "explanation": "every-prefix loads vs extracted model",
+        "assumptions": ["crash = prefix"],
+    },
     "C15": {
         "harness": "c15", "level": "proof",
         "technique": "Coq theorems (round trips, injectivity, key-set NoDup by reflection) over an executable codec model + per-run model/implementation correspondence on integer codes",
